@@ -1554,6 +1554,14 @@ class Executor(object):
                 return S.b_or(*[S.cmp('==', a, x) for x in b]) if b else False
             if isinstance(b, dict):
                 return a in b
+            if isinstance(b, (set, frozenset)):
+                if not is_sym(a):
+                    try:
+                        return a in b
+                    except TypeError:
+                        pass
+                return S.b_or(*[S.cmp('==', a, x) for x in sorted(
+                    b, key=repr)]) if b else False
             if isinstance(b, str) and isinstance(a, str):
                 return a in b
             raise VCError('in')
@@ -1928,6 +1936,18 @@ class Executor(object):
             self.dropped.add('print call')
             return None
         if name == 'isinstance':
+            # decided only for concrete Python values against builtin types
+            v, c = args[0], args[1]
+            cs = c if isinstance(c, tuple) else (c,)
+            py = {'int': int, 'float': float, 'list': list, 'tuple': tuple,
+                  'str': str, 'dict': dict, 'bool': bool, 'set': set}
+            if all(isinstance(x, _Builtin) and x.name in py for x in cs) \
+                    and isinstance(v, (bool, int, float, Fraction, list,
+                                       tuple, str, dict, set)) \
+                    and not is_sym(v):
+                if isinstance(v, Fraction):
+                    return any(x.name == 'float' for x in cs)
+                return isinstance(v, tuple(py[x.name] for x in cs))
             raise VCError('isinstance')
         if name == 'list':
             if not args:
@@ -1962,6 +1982,15 @@ class Executor(object):
                 if len(args) > 2:
                     return args[2]
             raise VCError('getattr(%r, %r)' % (o, a))
+        if name == 'setattr':
+            o, a, v = args[0], args[1], args[2]
+            if isinstance(o, SymObject) and isinstance(a, str):
+                o.attrs[a] = v
+                return None
+            if hasattr(o, 'vc_setattr') and isinstance(a, str):
+                o.vc_setattr(a, v, self, st, node)
+                return None
+            raise VCError('setattr(%r, %r)' % (o, a))
         if name == 'dict':
             d = dict(args[0]) if args else {}
             d.update(kwargs)
@@ -2132,6 +2161,19 @@ class _ClassRef(object):
     def __init__(self, module, node):
         self.module, self.node = module, node
 
+    def _key(self):
+        return (getattr(self.module, 'path', None),
+                getattr(self.node, 'name', None))
+
+    def __eq__(self, o):
+        return isinstance(o, _ClassRef) and self._key() == o._key()
+
+    def __ne__(self, o):
+        return not self.__eq__(o)
+
+    def __hash__(self):
+        return hash(self._key())
+
 
 class _BoundMethod(object):
     def __init__(self, obj, module, cls, fn):
@@ -2240,7 +2282,7 @@ _CMP = {ast.Eq: '==', ast.NotEq: '!=', ast.Lt: '<', ast.LtE: '<=',
 _BUILTIN_NAMES = {'abs', 'min', 'max', 'float', 'int', 'len', 'range',
                   'print', 'bool', 'list', 'tuple', 'dict', 'sum',
                   'enumerate', 'zip', 'sorted', 'str', 'isinstance',
-                  'hasattr', 'declare', 'printf', 'implies', 'ite',
+                  'hasattr', 'setattr', 'declare', 'printf', 'implies', 'ite',
                   'c_array', 'fabs', 'isinf', 'any', 'all', 'set',
                   'frozenset', 'getattr'}
 
